@@ -203,6 +203,10 @@ def add(a, b):
     a, b = _num2(a, b)
     if not isz(a) and not isz(b):
         return a + b
+    if not isz(b) and b == 0 and (is_real(a) or isinstance(b, int)):
+        return a
+    if not isz(a) and a == 0 and (is_real(b) or isinstance(a, int)):
+        return b
     za, zb = _zz(a, b)
     return za + zb
 
@@ -213,6 +217,8 @@ def sub(a, b):
     a, b = _num2(a, b)
     if not isz(a) and not isz(b):
         return a - b
+    if not isz(b) and b == 0 and (is_real(a) or isinstance(b, int)):
+        return a
     za, zb = _zz(a, b)
     return za - zb
 
